@@ -246,24 +246,22 @@ impl<KT: DbMapKeyType> DbXxxBase for FileDbXxxInner<KT> {
     }
     #[inline]
     fn sync_all(&mut self) -> Result<()> {
-        if self.is_dirty() {
-            // save all data and meta
-            self.val_file.sync_all()?;
-            self.key_file.sync_all()?;
-            self.htx_file.sync_all()?;
-            self.dirty = false;
-        }
+        // always: a preceding flush() clears the dirty flag without syncing.
+        // save all data and meta
+        self.val_file.sync_all()?;
+        self.key_file.sync_all()?;
+        self.htx_file.sync_all()?;
+        self.dirty = false;
         Ok(())
     }
     #[inline]
     fn sync_data(&mut self) -> Result<()> {
-        if self.is_dirty() {
-            // save all data
-            self.val_file.sync_data()?;
-            self.key_file.sync_data()?;
-            self.htx_file.sync_data()?;
-            self.dirty = false;
-        }
+        // always: a preceding flush() clears the dirty flag without syncing.
+        // save all data
+        self.val_file.sync_data()?;
+        self.key_file.sync_data()?;
+        self.htx_file.sync_data()?;
+        self.dirty = false;
         Ok(())
     }
 }
